@@ -228,6 +228,15 @@ Definition step (s : state) : outcome :=
                     end
                 | _ => Stuck
                 end
+            | NF1 g =>            (* fn(x, [a]) *)
+                match stk m with
+                | SV x :: SV a0 :: r =>
+                    match n_fn1 nt g x a0 with
+                    | inl w => cont (set_stk m (SV w :: r))
+                    | inr x => brk (Some (VE (err_of x))) m
+                    end
+                | _ => Stuck
+                end
             | NBreak =>
                 match stk m with
                 | SLbl n :: _ => brk (Some (VE (EB n))) m
